@@ -531,6 +531,12 @@ class IH5Record(IH5Group):
     def mode(self) -> Literal["r", "r+"]:
         return "r+" if self._allow_patching else "r"
 
+    def flush(self) -> None:
+        """Flush buffers of the writable container to disk (if there is one)."""
+        self._expect_open()
+        if self._has_writable:
+            self.__files__[-1].flush()
+
     def close(self, commit: bool = True) -> None:
         """Close all files that belong to this record.
 
